@@ -154,4 +154,60 @@ Proof.
   intros e He. destruct (Hw e He) as [Hin|Hle]; [|exact Hle].
   rewrite wake_of_log_tick, wake_of_set_wake in Hin. destruct Hin.
 Qed.
+
+(* ---------- any speed: without interrupts the speed only decides how far a run gets.  What the real-time master does
+   in any number of steps at any speed num/den is what the simulation-time master does in some number j of ticks,
+   under every horizon from the time of the last tick on *)
+Variables num den : Z.
+
+Lemma loop_prefix : forall steps m, (forall e, In e (wake_of (m_s m) top) -> m_tprev m <= snd e) ->
+  let m' := master_loop cfg devf num den steps fuel m [] t_end in
+  m_tprev m <= m_tprev m' /\
+  exists j, forall h, m_tprev m' <= h ->
+    fst (sim_loop cfg devf j fuel h (m_s m) (m_obs m)) = (m_s m', m_obs m').
+Proof.
+  induction steps as [|k IH]; intros m Hw; cbn [master_loop].
+  - split; [lia|]. exists O. intros h _. reflexivity.
+  - pose proof (first_wakeups_spec (wake_of (m_s m) top)) as SP.
+    destruct (first_wakeups (wake_of (m_s m) top)) as [[when roots]|] eqn:Ef.
+    2: { split; [lia|]. exists O. intros h _. reflexivity. }
+    destruct SP as [[[e0 [He0 Hv0]] Hmin] _].
+    assert (Hge : m_tprev m <= when) by (rewrite <- Hv0; apply Hw; exact He0).
+    destruct (Z.leb (deadline num den m when) t_end).
+    2: { split; [lia|]. exists O. intros h _. reflexivity. }
+    pose proof (tick_wakes fuel when roots []
+                  (log_tick (set_wake (m_s m) top (filter (fun e : comp * Z => negb (memb (fst e) roots)) (wake_of (m_s m) top))) top when roots)) as Hwk.
+    set (m2 := do_tick cfg devf fuel m when roots (deadline num den m when)).
+    assert (E2 : m_tprev m2 = when /\
+                 (let '(s2, _, o) := tick_level cfg devf fuel top when roots []
+                      (log_tick (set_wake (m_s m) top (filter (fun e : comp * Z => negb (memb (fst e) roots)) (wake_of (m_s m) top))) top when roots) in
+                  m_s m2 = s2 /\ m_obs m2 = m_obs m ++ o)).
+    { unfold m2, do_tick. destruct (tick_level cfg devf fuel top when roots [] _) as [[s2 out] o]. cbn. split; [reflexivity | split; reflexivity]. }
+    destruct E2 as [Et E2].
+    assert (Hw2 : forall e, In e (wake_of (m_s m2) top) -> m_tprev m2 <= snd e).
+    { rewrite Et. unfold tick_level in *. destruct (tick_with cfg devf (on_tick_level cfg devf fuel) top when roots [] _) as [[s2 out] o].
+      destruct E2 as [Es _]. rewrite Es. intros e He. destruct (Hwk e He) as [Hin|Hle]; [|exact Hle].
+      rewrite wake_of_log_tick, wake_of_set_wake in Hin. apply filter_In in Hin. destruct Hin as [Hin _]. apply Hmin. exact Hin. }
+    destruct (IH m2 Hw2) as [Hmono [j Hj]]. fold m2.
+    split; [lia|]. exists (S j). intros h Hh. cbn [sim_loop]. rewrite Ef.
+    assert (Hle : Z.leb when h = true) by (apply Z.leb_le; lia). rewrite Hle.
+    destruct (tick_level cfg devf fuel top when roots [] _) as [[s2 out] o]. destruct E2 as [Es Eo]. rewrite <- Es, <- Eo. apply Hj. exact Hh.
+Qed.
+
+Theorem master_any_speed_is_sim_prefix steps :
+  let m := simulate_full cfg devf num den fuel steps initial [] [] t_end in
+  exists j, forall h, m_tprev m <= h ->
+    fst (sim_run cfg devf j fuel initial h) = (m_s m, m_obs m).
+Proof.
+  unfold simulate_full, sim_run. cbn [fold_left].
+  pose proof (tick_wakes fuel initial (map fst (l_order (level_of cfg top))) []
+                (log_tick (set_wake s_init top []) top initial (map fst (l_order (level_of cfg top))))) as Hw.
+  unfold tick_level in *.
+  destruct (tick_with cfg devf (on_tick_level cfg devf fuel) top initial _ [] _) as [[s1 out] ob].
+  set (m0 := {| m_s := s1; m_tprev := initial; m_real := 0; m_now := 0; m_obs := ob; m_ticks := [(initial, 0)] |}).
+  assert (H0 : forall e, In e (wake_of (m_s m0) top) -> m_tprev m0 <= snd e).
+  { cbn [m0 m_s m_tprev]. intros e He. destruct (Hw e He) as [Hin|Hle]; [|exact Hle].
+    rewrite wake_of_log_tick, wake_of_set_wake in Hin. destruct Hin. }
+  destruct (loop_prefix steps m0 H0) as [_ [j Hj]]. exists j. exact Hj.
+Qed.
 End Eq.
